@@ -34,6 +34,9 @@ func sbGenE2E(r *Rng, tier string) any {
 	if r.Chance(40) {
 		e.Archs = []string{"x86_64", "aarch64"}
 	}
+	if r.Chance(30) {
+		e.ConfigArchs = true
+	}
 	if r.Chance(40) {
 		e.Budget = 1 + r.Intn(3)
 	}
@@ -279,7 +282,16 @@ func runSbomE2E(c *sbCase) []Step {
 	if e.Budget > 0 {
 		ic.Layering = &types.Layering{Strategy: "origin", Budget: e.Budget}
 	}
-	out := e2eBuild(ic, repo, E2EOpts{Archs: e.Archs, SBOM: true})
+	cliArchs := e.Archs
+	if e.ConfigArchs {
+		// `archs: [x86_64, amd64, …]`: the YAML loader normalises every entry but does not de-duplicate
+		for _, a := range e.Archs {
+			ic.Archs = append(ic.Archs, types.ParseArchitecture(a))
+		}
+		ic.Archs = append(ic.Archs, types.ParseArchitecture(e.Archs[0]))
+		cliArchs = nil
+	}
+	out := e2eBuild(ic, repo, E2EOpts{Archs: cliArchs, SBOM: true})
 	desc := fmt.Sprintf("apko build world=%v archs=%v layering-budget=%d vcs=%q (%d packages in the repository)", e.World, e.Archs, e.Budget, e.VCS, len(e.Pkgs))
 	if out.Err != nil {
 		kind := sbErrKind(out.Err)
